@@ -185,13 +185,17 @@ def cmp1(op, a, b):
 
 
 class Env:
-    def __init__(self, vals=None, bools=None, anysel=None):
+    def __init__(self, vals=None, bools=None, anysel=None, witnesses=None):
         self.vals = dict(vals or {})      # term -> class set
         self.bools = dict(bools or {})    # cond term -> bool set
         self.anysel = dict(anysel or {})  # vector term -> class set of every element
+        # witnesses: (index symbol w, lo, hi): "some index w in [lo,hi) for which the facts
+        # recorded in vals about terms mentioning w hold" (from: a sum of non-negative terms is
+        # positive iff one of its terms is)
+        self.witnesses = list(witnesses or [])
 
     def copy(self):
-        return Env(self.vals, self.bools, self.anysel)
+        return Env(self.vals, self.bools, self.anysel, self.witnesses)
 
     def with_val(self, t, s):
         e = self.copy()
@@ -297,6 +301,14 @@ def ev(t, env):
             if n == r:
                 break
             r = n
+        if k == 'sum' and not (b.cls & ~NONNEG) and (r & ZERO):
+            # all terms non-negative: the sum is positive if the term at a witness index is
+            for (w, lo, hi) in env.witnesses:
+                if (lo, hi) == (t[2], t[3]):
+                    bw = ev(T.subst(t[4], {t[1]: w}), env)
+                    if not bw.tainted and bw.cls == POS:
+                        r = POS
+                        break
         return Result(r, b.tainted, b.why)
     if k == 'sel':
         v = t[1]
@@ -442,9 +454,9 @@ def refine(c, env, truth):
                     keepA |= x
                     keepB |= y
         if not T.is_num(a):
-            e.vals[a] = keepA
+            assume_class(e, a, keepA)
         if not T.is_num(b):
-            e.vals[b] = keepB
+            assume_class(e, b, keepB)
         # equivalent spellings of the same comparison
         flip = {'<': '>', '<=': '>=', '>': '<', '>=': '<=', '==': '==', '!=': '!='}[k]
         e.bools[(flip, b, a)] = BT if truth else BF
@@ -478,6 +490,47 @@ def refine(c, env, truth):
         e.vals[a] = keep
         return e
     return e
+
+
+_wcount = [0]
+
+
+def assume_class(e, t, cls):
+    """Record that term t has a class within cls and propagate backwards where that is exact:
+    a positive product of non-negative factors has positive factors; a positive sum of
+    non-negative terms has a positive term (witness index)."""
+    old = ev(t, e).cls
+    new = old & cls
+    e.vals[t] = new
+    if not isinstance(t, tuple) or not t:
+        return
+    if new == POS:
+        if t[0] == '*':
+            a = ev(t[1], e).cls
+            b = ev(t[2], e).cls
+            if not (a & ~NONNEG) and not (b & ~NONNEG):
+                assume_class(e, t[1], POS)
+                assume_class(e, t[2], POS)
+        elif t[0] == 'sum':
+            body = ev(t[4], e)
+            if not body.tainted and not (body.cls & ~NONNEG):
+                _wcount[0] += 1
+                w = ('sym', '_witness%d' % _wcount[0])
+                T.RANGES[w] = (t[2], t[3])
+                e.witnesses = e.witnesses + [(w, t[2], t[3])]
+                assume_class(e, T.subst(t[4], {t[1]: w}), POS)
+        elif t[0] == 'fn' and t[1] == 'pow' and len(t) == 4:
+            x = ev(t[2], e).cls
+            y = ev(t[3], e).cls
+            if not (x & ~NONNEG) and y == POS:
+                assume_class(e, t[2], POS)
+        elif t[0] == 'ite':
+            pass
+    if new == ZERO and t[0] == 'sum':
+        body = ev(t[4], e)
+        if not body.tainted and not (body.cls & ~NONNEG):
+            # a zero sum of non-negative terms: every term is zero
+            e.vals[('allzero', t[1], t[2], t[3], t[4])] = ZERO
 
 
 def resolve(t, env):
